@@ -13,6 +13,14 @@ from .values import VNet, VDict, VAttr, VCounter
 class Snap:
     """Immutable view of a VNet at one program point."""
 
+    @classmethod
+    def from_terms(cls, kind, **kw):
+        s = cls.__new__(cls)
+        s.kind = kind
+        for k, v in kw.items():
+            setattr(s, k, v)
+        return s
+
     def __init__(self, net):
         self.kind = net.kind
         f = net.f
@@ -165,8 +173,8 @@ class FnSpec:
         self.notes = ""
 
     # builder API -----------------------------------------------------------
-    def req(self, name, fn):
-        self.requires.append(Clause(name, (), fn))
+    def req(self, name, fn, props=()):
+        self.requires.append(Clause(name, props, fn))
         return self
 
     def ens(self, name, props, fn):
